@@ -1371,11 +1371,17 @@ class Evaluator:
             fd = ast.FunctionDef(name='<lambda>', args=e.args, body=[ast.Return(value=e.body, lineno=e.lineno, col_offset=0)], decorator_list=[],
                                  returns=None, lineno=e.lineno, col_offset=0, end_lineno=getattr(e, 'end_lineno', e.lineno))
             return Lam(names, self.expr(e.body, sub, mod, fi, depth), (fd, dict(st.env), mod, fi))
+        if isinstance(e, (ast.GeneratorExp, ast.ListComp, ast.SetComp)) and len(e.generators) == 1 and e.generators[0].ifs:
+            lit0 = self.expr(e.generators[0].iter, st, mod, fi, depth)
+            if isinstance(lit0, TupleT) and not lit0.items:
+                return TupleT((), 'set' if isinstance(e, ast.SetComp) else 'tuple')   # nothing to filter
         if isinstance(e, (ast.GeneratorExp, ast.ListComp, ast.SetComp)) and len(e.generators) == 1 and not e.generators[0].ifs \
                 and isinstance(e.generators[0].target, (ast.Name, ast.Tuple)):
             lit = self.expr(e.generators[0].iter, st, mod, fi, depth)
             if isinstance(lit, GlobalVal):
                 lit = lit.value
+            if isinstance(lit, TupleT) and not lit.items:
+                return TupleT((), 'set' if isinstance(e, ast.SetComp) else 'tuple')
             if isinstance(lit, TupleT) and lit.kind in ('tuple', 'list') and 0 < len(lit.items) <= 8 and not any(isinstance(x, Op) and x.op == '*' for x in lit.items):
                 vals = []
                 for item in lit.items:
@@ -1475,6 +1481,13 @@ class Evaluator:
                     pass
         if op in ('is', 'is not') and is_const(b, None) and isinstance(a, (New, ClassRef, FuncRef, Lam, Template, TupleT, EnumMember)):
             return Const(op == 'is not')
+        if op in ('is', 'is not') and is_const(b, None) and isinstance(a, Attr):
+            # a declared field whose annotation is a class of the package (not Optional[...]) is never None
+            bt = self.type_of(a.base)
+            f = bt.field(a.name) if bt is not None else None
+            if f is not None and isinstance(f.annotation, (ast.Name, ast.Constant)) and self.ann_class(f.annotation, f.cls.module) is not None \
+                    and not (isinstance(f.default, ast.Constant) and f.default.value is None):
+                return Const(op == 'is not')
         if op in ('is', 'is not') and is_const(b, None) and isinstance(a, Call) and isinstance(a.func, FuncRef):
             # the result of a package function whose declared return type is a class (not Optional): never None
             callee = self.callee(a.func)
